@@ -214,7 +214,7 @@ func (fs *FS) OpenFile(name string, flag int, perm hackpadfs.FileMode) (afFile h
 		// require parent directory
 		err := errs[1]
 		if err != nil {
-			return nil, fs.wrapperErr("open", name, err)
+			return nil, fs.wrapperErr("open", name, fs.notDirErr(path.Dir(name), err))
 		}
 		if !files[1].info().IsDir() {
 			return nil, fs.wrapperErr("open", name, hackpadfs.ErrNotDir)
@@ -224,7 +224,7 @@ func (fs *FS) OpenFile(name string, flag int, perm hackpadfs.FileMode) (afFile h
 			return nil, fs.wrapperErr("open", name, err)
 		}
 	default:
-		return nil, fs.wrapperErr("open", name, err)
+		return nil, fs.wrapperErr("open", name, fs.notDirErr(name, err))
 	}
 
 	var file hackpadfs.File = storeFile
